@@ -183,7 +183,12 @@ impl SlidingCounterState {
 
         // No capacity - estimate when a slot will be available
         // As time progresses, previous_weight decreases, freeing up capacity
-        let time_until_slot = self.estimate_wait_time(elapsed_ratio);
+        // No permit was taken on this path, so the answer must never be `Ok(Duration::ZERO)` (which
+        // `SharedRateLimiter::acquire` reads as "permit acquired"): an estimate that rounds to zero
+        // nanoseconds is reported as the shortest non-zero wait.
+        let time_until_slot = self
+            .estimate_wait_time(elapsed_ratio)
+            .max(Duration::from_nanos(1));
 
         if time_until_slot > self.timeout_duration {
             Err(self.timeout_duration)
